@@ -8,7 +8,8 @@ mods = {}
 for f in sorted(glob.glob(os.path.join(here, "vlib", "p_c*.py"))):
     name = os.path.basename(f)[:-3]
     m = importlib.import_module("vlib." + name)
-    mods[m.PID] = m
+    if hasattr(m, "PID"):
+        mods[m.PID] = m
 NOTE = json.load(open(os.path.join(here, "manifest_notes.json"))) if os.path.exists(os.path.join(here, "manifest_notes.json")) else {}
 checks = []
 for p in props:
